@@ -1,6 +1,7 @@
 """C01: iterating a pipeline equals the eager reference semantics, repeatably (E1), plus the pipelines whose stages
 are evaluated concurrently by multi-worker prefetch, explored at source-line granularity under the controlled
 scheduler (shared machinery with C04)."""
+from vf import sizesweep
 from vf.checks import _e1, _e2, c04
 
 
@@ -11,11 +12,14 @@ def run(tier):
     _e2.run_matrix('C01', 'oracle_values', [(c, 'L', 1) for c in comp], res,
                    'pipeline stages evaluated by 2 prefetch workers: every source line of core.py / parallel_utils.py is a '
                    'scheduling point, preemption bound 1', cap=40000)
-    res.coverage['traces_validated_against_impl'] = e1_states + res.coverage.get('executions', 0)
+    sw = sizesweep.run('C01', tier, res)
+    res.coverage['traces_validated_against_impl'] = e1_states + res.coverage.get('executions', 0) + sw['states']
     return res
 
 
 def replay(data):
+    if data['replay'].get('engine') == 'sizesweep':
+        return sizesweep.replay('C01', data['replay'])
     if data['replay'].get('engine') == 'schedmc':
         return _e2.replay('C01', data)
     return _e1.replay('C01', {'iter'}, data)
